@@ -139,23 +139,28 @@ def selfwrite(rng):
 def generate(rng, tier):
     quick = tier == "quick"
     # exhaustive schedules for small programs
-    for prog in small_programs(rng, 12 if quick else 80):
+    for n_, prog in enumerate(small_programs(rng, 12 if quick else 80)):
+        if n_ % 2:
+            X.add_variants(rng, prog, 0.7)
         if sum(1 for nd in prog if nd[0] == X.EFF) == 3 and quick:
             scheds = list(exhaustive(rng, prog, 1))
         else:
             scheds = list(exhaustive(rng, prog, 2))
         for ops in scheds:
-            yield dict(case=C.norm([prog, ops]), kind="exhaustive", compare=True)
+            yield dict(case=C.norm([prog, ops, 1] if n_ % 4 == 3 else [prog, ops]), kind="exhaustive", compare=True)
     # seeded-random programs, histories and schedules
     for i in range(12000 if quick else 120000):
         ne = rng.choice([1, 2, 2, 3, 4])
-        prog = X.gen_program(rng, rng.randint(ne + 2, 11), ne)
+        prog = X.gen_program(rng, rng.randint(ne + 2, 11), ne, new_wrappers=True)
         if ne > 1 and rng.random() < 0.4:
             X.add_owner_tree(rng, prog)
         ops = X.gen_ops(rng, prog, rng.randint(8, 40), w=(0.30, 0.04, 0.12, 0.24, 0.18, 0.12), p_drop=0.15)
         if rng.random() < 0.7:
             ops.append([4])
-        yield dict(case=C.norm([prog, ops]), kind="random", compare=True)
+        if i % 2:
+            X.add_variants(rng, prog, 0.6)       # other entry points of the same mechanism (see rxlib)
+            ops = X.vary_disposals(rng, prog, ops)
+        yield dict(case=C.norm(X.with_flags(rng, prog, ops, 0.4 if i % 2 else 0)), kind="random", compare=True)
     # pause / resume through both notification paths (F-C02-a shape and variations)
     for i in range(1500 if quick else 15000):
         ne = rng.choice([1, 2])
@@ -169,7 +174,9 @@ def generate(rng, tier):
         ops += [[6, e]]
         for _ in range(rng.randint(1, 3)):
             ops += [[0, rng.choice(sigs), rng.randint(0, 3)], [4]]
-        yield dict(case=C.norm([prog, ops]), kind="pause", compare=True)
+        if i % 2:
+            X.add_variants(rng, prog, 0.6)
+        yield dict(case=C.norm(X.with_flags(rng, prog, ops, 0.4 if i % 2 else 0)), kind="pause", compare=True)
     # a tree of owners: pause / resume / dispose addressed to any owner of the tree, in any order
     for i in range(3000 if quick else 30000):
         ne = rng.choice([2, 3, 3, 4, 5])
@@ -196,7 +203,10 @@ def generate(rng, tier):
             for s_ in sigs:
                 ops.append([0, s_, rng.randint(4, 6)])
         ops.append([4])
-        yield dict(case=C.norm([prog, ops]), kind="owners", compare=True)
+        if i % 2:
+            X.add_variants(rng, prog, 0.6)
+            ops = X.vary_disposals(rng, prog, ops)
+        yield dict(case=C.norm(X.with_flags(rng, prog, ops, 0.4 if i % 2 else 0)), kind="owners", compare=True)
     # selectors (Selector::new / new_with_fn) read by effects and memos
     for i in range(4000 if quick else 40000):
         ne = rng.choice([1, 1, 2, 2, 3])
@@ -214,6 +224,16 @@ def generate(rng, tier):
         ops = X.gen_ops(rng, prog, rng.randint(6, 30), w=(0.35, 0.04, 0.12, 0.2, 0.2, 0.09))
         ops.append([4])
         yield dict(case=C.norm([prog, ops]), kind="nested", compare=False)
+    # effects created in the middle of the history under the owner of an existing effect, paused or not (oracle only)
+    for i in range(2500 if quick else 25000):
+        yield dict(case=C.norm(X.gen_adopt_case(rng)), kind="adopt", compare=False)
+    # operations that are not writes must not wake anything (oracle only)
+    for i in range(800 if quick else 8000):
+        ne = rng.choice([1, 2, 2])
+        prog = X.gen_program(rng, rng.randint(ne + 2, 8), ne, allow_wr=False)
+        X.add_variants(rng, prog, 0.4)
+        ops = X.add_silent(rng, prog, X.gen_ops(rng, prog, rng.randint(6, 24), w=(0.3, 0.04, 0.12, 0.24, 0.2, 0.1)), n=4) + [[4]]
+        yield dict(case=C.norm([prog, ops]), kind="silent", compare=False)
     for i in range(30 if quick else 300):
         yield dict(case=C.norm(selfwrite(rng)), kind="selfwrite", compare=True)
     # ImmediateEffect: not modelled; watchdog + oracle only
@@ -222,6 +242,8 @@ def generate(rng, tier):
         prog = X.gen_program(rng, rng.randint(ne + 2, 8), ne, eff_kinds=(5,), allow_wr=False, p_untr=0.05)
         ops = X.gen_ops(rng, prog, rng.randint(5, 20), w=(0.5, 0.05, 0.25, 0.0, 0.1, 0.1))
         ops = [o for o in ops if o[0] not in (5, 6)] + [[4]]
+        if i % 2:
+            X.add_variants(rng, prog, 0.6)
         yield dict(case=C.norm([prog, ops]), kind="immediate", compare=False)
 
 
@@ -232,6 +254,11 @@ def oracle(item, impl):
 def classify(item, impl, model):
     if self_feeding(item["case"][0]):
         return "F-C02-d"
+    if any(o and o[0] == 10 for o in item["case"][1]):
+        # F-C02-g: exactly the failure "an effect created under a paused owner (and not resumed since) ran"
+        h = X.C02Hooks()
+        if X.run_oracle(item, impl, h) and h.known == "F-C02-g":
+            return "F-C02-g"
     return None
 
 
